@@ -82,6 +82,27 @@ def check_predict(chk, rep, repo, cls, fields):
         good = [e for e in st if e.target == ("attr", x, f) and e.value == ("attr", nbnode, f)
                 and has_guard(e.guards, bs.cond) and has_guard(e.guards, need)
                 and e.loops == li.loops + (li.lid,)]
+        if not good and len(st) == 1:
+            # companion form: the winner is remembered in the accepted branch and the field copied after the scan
+            from ..ir import facts
+            e = st[0]
+            for cname, (cinit, cval) in bs.companions.items():
+                after = ("phi", li.lid, cname)
+                src = None
+                if cval == nbnode:
+                    src = after
+                elif cval == nb or cval == ("idx", sc.N, r):
+                    src = ("idx", ("attr", G, "nodes"), after if cval == nb else ("call", ("builtin", "int"), (after,), ()))
+                if src is None or e.target != ("attr", x, f) or e.value != ("attr", src, f) or e.loops != li.loops:
+                    continue
+                own = [t for t in facts(e.guards) if t not in facts(w.loops[li.loops[-1]].guards)]
+                defined = [("cmp", "is not", after, ("const", None)), ("cmp", "!=", *sorted([after, ("const", None)], key=repr)),
+                           ("cmp", "<", ("const", -1), after), ("cmp", "<=", ("const", 0), after),
+                           ("cmp", "!=", *sorted([after, ("K", "NIL")], key=repr)),
+                           ("cmp", "!=", *sorted([after, ("const", -1)], key=repr))]
+                sentinel = cinit in (("const", None), ("const", -1), ("K", "NIL"))
+                if sentinel and len(own) == 1 and own[0] in defined:
+                    good = [e]
         rep.fn(f"ARGMAX-{f}", fn, f"{f} of the query is copied from the winning neighbour in the accepted branch",
                len(good) == 1 and len(st) == 1,
                f"{len(st)} store(s) to the query's {f}, {len(good)} of the required form", line=li.line)
